@@ -345,7 +345,7 @@ CONTRACTS[GP + 'GraphProcessor.get_graph@design-variable-values'] = dict(
 # the dict-shaped maps of the fast encoder take the other branch of `isinstance(exist_map, dict)` and leave the mask alone.
 CLASSES['DesVar']['node'] = 'Ref'
 CONTRACTS[GP + 'GraphProcessor._get_des_vars@connection-choices'] = dict(
-    properties=['C01', 'C03', 'C04'],
+    properties=['C01', 'C03', 'C04', 'C11'],
     start_at='existence_infeasibility_mask = np.ones((n_combs,), dtype=bool)',
     stop_before='des_vars += [DesVar.from_des_var_node',
     types={'self': 'Ref[GraphProcessor]'},
